@@ -8,6 +8,8 @@ open Cpppo.Wire Cpppo.Merge
 def cfg : Cfg := { coil := Generated.shatterCoilLimit, reg := Generated.shatterRegLimit,
                    block := Generated.mergeBlock }
 
+def commands : List String := ["merge", "shatter"]
+
 def handle : List String → Option String
   | ["merge", fixed, reach, lim, rs] => do
     let reach ← reach.toNat?
